@@ -59,6 +59,25 @@ def run():
                             t0 = Lark(g0, parser='earley', lexer=lexer, ambiguity='resolve').parse(text)
                             if norm(t0) != norm(t):
                                 fails.append({'key': 'priority-none', 'input': {'grammar': g, 'text': text, 'lexer': lexer, 'priority': None}, 'observed': str(norm(t)), 'required': str(norm(t0)) + ' (as without priorities)'})
+    # priority=None: terminal priorities are switched off too, under every Earley lexer
+    TERM_TPL = [('start: A B | AB\nA: "a"\nB: "b"\nAB{P}: "ab"', 'ab'), ('start: (A | AA)+\nA{P}: "a"\nAA: "aa"', 'aaa'),
+                ('start: KW | NAME\nKW{P}: "if"\nNAME: /[a-z]+/', 'if'), ('start: x | y\nx: A\ny: B\nA: /a/\nB{P}: /a|b/', 'a')]
+    for tpl, text in TERM_TPL:
+        for p1 in (-3, 3):
+            g, g0 = tpl.replace('{P}', '.%d' % p1), tpl.replace('{P}', '')
+            for lexer in ('basic', 'dynamic', 'dynamic_complete'):
+                evals += 1
+                try:
+                    t0 = str(norm(Lark(g0, parser='earley', lexer=lexer, ambiguity='resolve', priority=None).parse(text)))
+                except Exception as e:
+                    t0 = 'raised ' + type(e).__name__
+                try:
+                    t = str(norm(Lark(g, parser='earley', lexer=lexer, ambiguity='resolve', priority=None).parse(text)))
+                except Exception as e:
+                    t = 'raised ' + type(e).__name__
+                out.append(t)
+                if t != t0:
+                    fails.append({'key': 'priority-none-terminals', 'input': {'grammar': g, 'text': text, 'lexer': lexer, 'priority': None}, 'observed': t, 'required': t0 + ' (as without priorities)'})
     # built-in precedence: a directly empty alternative only where no non-empty alternative of the rule matches the same span
     for mode, pr in (('normal', -1), ('invert', 1), ('normal', 0)):
         g = 'start: opt X\nopt: | inner\ninner%s: E*\nE: "e"\nX: "x"' % ('.%d' % pr if pr else '')
